@@ -14,7 +14,8 @@ package main
 //     through a shared global function (and counts itself in a mutex-protected
 //     global). The expected report is computed per event.
 //
-//	payload: w=<workers> h=<submitters> ev=<events> sinks=<1..3> ff=<0|1> body=<light|heavy> glob=<0|1> burst=<batch size, 1 = AddEventAndWait> seed=<n>
+//	payload: w=<workers> h=<submitters> ev=<events> sinks=<1..3> ff=<0|1> body=<light|heavy> glob=<0|1> burst=<batch size, 1 = AddEventAndWait>
+//	         shadow=<0|1: the declaring scope defines `event` and `v`> nap=<0|1: read-pause-read of event> seed=<n>
 //	result : <lost> <duplicated> <mis-attributed> <wrong echoes>      (the model says 0 0 0 0)
 
 import (
@@ -23,6 +24,7 @@ import (
 	"go/token"
 	"os"
 	"path/filepath"
+	"runtime"
 	"sort"
 	"strconv"
 	"strings"
@@ -43,6 +45,7 @@ type c11Facts struct {
 	found      bool
 	writes     []string // captured variables assigned inside
 	reassigned []string // captured variables re-assigned by the enclosing function after the closure was created / loop variables
+	setup      []string // scope set-up calls in source order (c11ScopeSetup)
 }
 
 func c11Names(entries []string) []string {
@@ -85,6 +88,7 @@ func c11Closure(p *srcPkg, f *ast.File) c11Facts {
 				return true
 			}
 			res.found = true
+			res.setup = c11ScopeSetup(lit)
 			res.writes = append(res.writes, c11Names(capturedWritesOf(lit, nil, p, imports))...)
 			// captured objects referenced inside the literal
 			captured := map[*ast.Object]bool{}
@@ -153,6 +157,83 @@ func c11Closure(p *srcPkg, f *ast.File) c11Facts {
 	return res
 }
 
+// c11ScopeSetup returns, in source order, the calls inside fn that set up the fresh scope of
+// an invocation / a call frame: its constructor, the stores into it, the link to its parent
+// and its first use as evaluation scope. Normalised: only these calls, no names of locals.
+func c11ScopeSetup(fn ast.Node) []string {
+	type ev struct {
+		pos  token.Pos
+		what string
+	}
+	var evs []ev
+	var scopeObj *ast.Object
+	ctorOf := func(e ast.Expr) string {
+		c, ok := e.(*ast.CallExpr)
+		if !ok {
+			return ""
+		}
+		sel, ok := c.Fun.(*ast.SelectorExpr)
+		if !ok {
+			return ""
+		}
+		switch sel.Sel.Name {
+		case "NewScope", "NewScopeWithParent", "NewChild":
+			return sel.Sel.Name
+		}
+		return ""
+	}
+	// the scope variable: the first variable initialised by a scope constructor
+	ast.Inspect(fn, func(n ast.Node) bool {
+		if as, ok := n.(*ast.AssignStmt); ok && scopeObj == nil && len(as.Lhs) == 1 && len(as.Rhs) == 1 {
+			if id, ok := as.Lhs[0].(*ast.Ident); ok && id.Obj != nil {
+				if c := ctorOf(as.Rhs[0]); c != "" {
+					scopeObj = id.Obj
+					evs = append(evs, ev{as.Pos(), c})
+				}
+			}
+		}
+		return true
+	})
+	if scopeObj == nil {
+		return nil
+	}
+	isScope := func(e ast.Expr) bool {
+		id, ok := unparen(e).(*ast.Ident)
+		return ok && id.Obj == scopeObj
+	}
+	ast.Inspect(fn, func(n ast.Node) bool {
+		c, ok := n.(*ast.CallExpr)
+		if !ok {
+			return true
+		}
+		sel, ok := c.Fun.(*ast.SelectorExpr)
+		if !ok {
+			return true
+		}
+		switch {
+		case (sel.Sel.Name == "SetValue" || sel.Sel.Name == "SetLocalValue") && isScope(sel.X) && len(c.Args) >= 1:
+			name := "*"
+			if lit, ok := c.Args[0].(*ast.BasicLit); ok && lit.Kind == token.STRING {
+				name = strings.Trim(lit.Value, "\"`")
+			}
+			evs = append(evs, ev{c.Pos(), sel.Sel.Name + ":" + name})
+		case sel.Sel.Name == "SetParentOfScope" && len(c.Args) >= 1 && isScope(c.Args[0]):
+			evs = append(evs, ev{c.Pos(), "SetParentOfScope"})
+		case sel.Sel.Name == "Eval" && len(c.Args) >= 1 && isScope(c.Args[0]):
+			evs = append(evs, ev{c.Pos(), "Eval"})
+		}
+		return true
+	})
+	sort.SliceStable(evs, func(i, j int) bool { return evs[i].pos < evs[j].pos })
+	var out []string
+	for _, e := range evs {
+		if len(out) == 0 || out[len(out)-1] != e.what {
+			out = append(out, e.what)
+		}
+	}
+	return out
+}
+
 func c11Method(p *srcPkg, f *ast.File, recvType, name string) c11Facts {
 	var res c11Facts
 	imports := fileImports(f)
@@ -167,6 +248,7 @@ func c11Method(p *srcPkg, f *ast.File, recvType, name string) c11Facts {
 			recv = fd.Recv.List[0].Names[0]
 		}
 		res.writes = c11Names(capturedWritesOf(fd, recv, p, imports))
+		res.setup = c11ScopeSetup(fd)
 	}
 	return res
 }
@@ -197,6 +279,17 @@ func c11Extract(args []string) int {
 		}
 		return "[" + strings.Join(q, ", ") + "]"
 	}
+	pairs := func(xs []string) string {
+		var q []string
+		for _, x := range xs {
+			op, arg := x, ""
+			if i := strings.IndexByte(x, ':'); i >= 0 {
+				op, arg = x[:i], x[i+1:]
+			}
+			q = append(q, "("+leanStr(op)+", "+leanStr(arg)+")")
+		}
+		return "[" + strings.Join(q, ", ") + "]"
+	}
 	var b strings.Builder
 	b.WriteString("/-! GENERATED by `harness C11 -tool extract` from the Go source under test — do not edit.\n")
 	b.WriteString("`capturedWrites`: variables assigned inside the function literal assigned to `rule.Action`\n")
@@ -209,6 +302,10 @@ func c11Extract(args []string) int {
 	b.WriteString("def capturedWrites : List String := " + list(sink.writes) + "\n\n")
 	b.WriteString("def capturedReassigned : List String := " + list(sink.reassigned) + "\n\n")
 	b.WriteString("def funcRunWrites : List String := " + list(fn.writes) + "\n\n")
+	b.WriteString("/-- set-up of the fresh per-invocation scope inside the action closure, in source order: constructor,\n    stores (`(SetValue, <name>)`, `*` = computed name), link to the declaring scope, first use for evaluation -/\n")
+	b.WriteString("def sinkScopeSetup : List (String × String) := " + pairs(sink.setup) + "\n\n")
+	b.WriteString("/-- the same for the call frame scope of `function.Run` -/\n")
+	b.WriteString("def funcRunScopeSetup : List (String × String) := " + pairs(fn.setup) + "\n\n")
 	b.WriteString(fmt.Sprintf("/-- the extractor found the code it is about -/\ndef found : List (String × Bool) := [(\"rule.Action literal\", %v), (\"function.Run\", %v)]\n\n", sink.found, fn.found))
 	b.WriteString("end Ecal.Gen.C11\n")
 	if err := os.WriteFile(args[0], []byte(b.String()), 0644); err != nil {
@@ -226,6 +323,7 @@ type c11Record struct {
 	viaEvent      float64
 	viaLocal      float64
 	viaSharedFunc float64
+	firstRead     float64 // event.state.id read at the start of the invocation (before the pause)
 }
 
 var c11Mu sync.Mutex
@@ -238,8 +336,13 @@ func c11Num(v interface{}) float64 {
 	return -1
 }
 
-func c11Program(sinks int, body string, glob bool) string {
+func c11Program(sinks int, body string, glob bool, shadow bool, nap bool) string {
 	var sb strings.Builder
+	if shadow {
+		// the DECLARING scope holds variables with the names an invocation scope / a call frame
+		// sets itself before it is linked to its parent: they must stay what they are
+		sb.WriteString("event := {\"name\" : \"global\", \"kind\" : \"global\", \"state\" : {\"id\" : -7, \"f1\" : 0, \"f2\" : 0, \"f3\" : 0}}\nv := -7\n")
+	}
 	sb.WriteString("total := 0\nfunc shared(v) {\n    w := v\n    return w\n}\n")
 	kinds := []string{`"t.a"`, `"t.*"`, `"t.b"`}
 	for s := 1; s <= sinks; s++ {
@@ -252,7 +355,11 @@ func c11Program(sinks int, body string, glob bool) string {
 		if glob {
 			sb.WriteString("    mutex cm {\n        total := total + 1\n    }\n")
 		}
-		fmt.Fprintf(&sb, "    x.rec(\"s%d\", event.state.id, loc, viaf)\n", s)
+		if nap {
+			// read - pause - read: an overlapping invocation must not change what `event` is here
+			sb.WriteString("    x.nap()\n")
+		}
+		fmt.Fprintf(&sb, "    x.rec(\"s%d\", event.state.id, loc, viaf, id)\n", s)
 		fmt.Fprintf(&sb, "    if event.state.f%d == 1 {\n        raise(\"T_s%d_{{id}}\", \"d{{loc}}\", viaf)\n    }\n", s, s)
 		fmt.Fprintf(&sb, "    if event.state.f%d == 2 {\n        return loc\n    }\n", s)
 		fmt.Fprintf(&sb, "    if event.state.f%d == 3 {\n        x.fail(\"s%d\", viaf)\n    }\n", s, s)
@@ -297,6 +404,7 @@ func c11Run(payload string) string {
 	}
 	w, h, ev, sinks := c13Field(f, "w", 4), c13Field(f, "h", 8), c13Field(f, "ev", 500), c13Field(f, "sinks", 1)
 	ff, glob := f["ff"] == "1", f["glob"] == "1"
+	shadow, nap := f["shadow"] == "1", f["nap"] == "1"
 	burst := c13Field(f, "burst", 1)
 	seed, _ := strconv.ParseUint(f["seed"], 10, 64)
 	r := NewRand(seed)
@@ -312,7 +420,7 @@ func c11Run(payload string) string {
 	proc.SetFailOnFirstErrorInTriggerSequence(ff)
 	erp.Processor = proc
 	vs := scope.NewScope(scope.GlobalScope)
-	ast, err := ecalparser.ParseWithRuntime("t", c11Program(sinks, f["body"], glob), erp)
+	ast, err := ecalparser.ParseWithRuntime("t", c11Program(sinks, f["body"], glob, shadow, nap), erp)
 	if err != nil {
 		return "setup-parse-error " + hx(err.Error())
 	}
@@ -491,7 +599,7 @@ func c11Run(payload string) string {
 	c11Records = nil
 	c11Mu.Unlock()
 	for _, rc := range recs {
-		if rc.viaEvent != rc.viaLocal || rc.viaEvent != rc.viaSharedFunc {
+		if rc.viaEvent != rc.viaLocal || rc.viaEvent != rc.viaSharedFunc || rc.viaEvent != rc.firstRead {
 			echo++
 			continue
 		}
@@ -504,6 +612,22 @@ func c11Run(payload string) string {
 	}
 	for _, n := range want {
 		echo += n // invocations that never reported
+	}
+	if shadow {
+		// the variables of the declaring scope are untouched
+		gev, _, _ := vs.GetValue("event")
+		gid := float64(0)
+		if em, ok := gev.(map[interface{}]interface{}); ok {
+			if st, ok := em["state"].(map[interface{}]interface{}); ok {
+				gid = c11Num(st["id"])
+			}
+		}
+		if gid != -7 {
+			echo++ // an invocation stored its `event` in the declaring scope
+		}
+		if gv, _, _ := vs.GetValue("v"); c11Num(gv) != -7 {
+			echo++ // a call frame stored its parameter in the declaring scope
+		}
 	}
 	if glob {
 		if tot, _, _ := vs.GetValue("total"); c11Num(tot) != float64(nInv) {
@@ -519,14 +643,19 @@ func init() {
 	register("C11", &Prop{
 		Timeout: 300 * time.Second,
 		Setup: func() {
+			registerX("nap", func(args []interface{}) (interface{}, error) {
+				runtime.Gosched()
+				time.Sleep(20 * time.Microsecond)
+				return nil, nil
+			})
 			registerX("fail", func(args []interface{}) (interface{}, error) {
 				return nil, fmt.Errorf("E_%v_%v;", args[0], args[1])
 			})
 			registerX("rec", func(args []interface{}) (interface{}, error) {
-				if len(args) != 4 {
-					return nil, fmt.Errorf("rec: 4 arguments")
+				if len(args) != 5 {
+					return nil, fmt.Errorf("rec: 5 arguments")
 				}
-				rc := c11Record{fmt.Sprint(args[0]), c11Num(args[1]), c11Num(args[2]), c11Num(args[3])}
+				rc := c11Record{fmt.Sprint(args[0]), c11Num(args[1]), c11Num(args[2]), c11Num(args[3]), c11Num(args[4])}
 				c11Mu.Lock()
 				c11Records = append(c11Records, rc)
 				c11Mu.Unlock()
@@ -538,7 +667,7 @@ func init() {
 				return c11Extract(args[1:])
 			}
 			if len(args) >= 1 && args[0] == "program" {
-				fmt.Print(c11Program(3, "heavy", true))
+				fmt.Print(c11Program(3, "heavy", true, true, true))
 				return 0
 			}
 			fmt.Fprintln(os.Stderr, "usage: harness C11 -tool extract <out.lean>")
@@ -565,9 +694,18 @@ func init() {
 				g.Count(fmt.Sprintf("workers %02d", w))
 				g.Count(fmt.Sprintf("sinks %d", sinks))
 				burst := []int{1, 1, 16, 64}[g.R.Intn(4)]
+				shadow, nap, evc := 0, 0, ev
+				if g.R.Intn(3) == 0 {
+					shadow = 1
+				}
+				if g.R.Intn(3) == 0 {
+					nap, evc = 1, ev/3
+				}
 				g.Count("body " + body)
 				g.Count(fmt.Sprintf("burst %02d", burst))
-				g.Emit(fmt.Sprintf("w=%d h=%d ev=%d sinks=%d ff=%d body=%s glob=%d burst=%d seed=%d", w, h, ev, sinks, ff, body, glob, burst, g.R.U64()%1000000))
+				g.Count(fmt.Sprintf("declaring scope defines event/v %d", shadow))
+				g.Count(fmt.Sprintf("read-pause-read %d", nap))
+				g.Emit(fmt.Sprintf("w=%d h=%d ev=%d sinks=%d ff=%d body=%s glob=%d burst=%d shadow=%d nap=%d seed=%d", w, h, evc, sinks, ff, body, glob, burst, shadow, nap, g.R.U64()%1000000))
 			}
 		},
 		Run: c11Run,
